@@ -6,7 +6,7 @@ Import ListNotations.
 
 Definition eps_D : list ep :=
   [SchedTell; SchedTellDqd; BanditTell;
-   AdamCtor; AdamReset; AdamStep; GAscCtor; GAscReset; GAscStep; ParallelAxes; HeatmapDf].
+   AdamCtor; AdamReset; AdamStep; GAscCtor; GAscReset; GAscStep; ParallelAxes; HeatmapDf; EmitterAsk].
 
 Lemma enum_D : forallb check_ep2 eps_D = true.
 Proof. vm_cast_no_check (eq_refl true). Qed.
